@@ -152,8 +152,23 @@ def _coords(k):
     return ideal, model
 
 
+_CACHE = {}
+
+
 def describe():
-    """The dictionary content as plain Python data (no numpy, no biotite)."""
+    """The dictionary content as plain Python data (no numpy, no biotite).
+    Every call returns a fresh deep copy (safe to modify)."""
+    import copy
+    return copy.deepcopy(_described())
+
+
+def _described():
+    if "d" not in _CACHE:
+        _CACHE["d"] = _describe()
+    return _CACHE["d"]
+
+
+def _describe():
     chem_comp, atoms, bonds = {}, {}, {}
     for c in COMPONENTS:
         arom_atoms = {a for b in c["bonds"] if b[3] == "Y" for a in b[:2]}
@@ -193,16 +208,18 @@ def component_ids():
 
 def template_bonds(comp_id):
     """{(atom_id_1, atom_id_2): BondType int} as written, or {} for an unknown component."""
-    d = describe()["chem_comp_bond"].get(comp_id)
-    if d is None:
-        return {}
-    return {(b["atom_id_1"], b["atom_id_2"]): BOND_TYPE_INT[b["value_order"], b["pdbx_aromatic_flag"]] for b in d}
+    key = ("tb", comp_id)
+    if key not in _CACHE:
+        d = _described()["chem_comp_bond"].get(comp_id)
+        _CACHE[key] = {} if d is None else {
+            (b["atom_id_1"], b["atom_id_2"]): BOND_TYPE_INT[b["value_order"], b["pdbx_aromatic_flag"]] for b in d}
+    return dict(_CACHE[key])
 
 
 def link_class(comp_id):
     """'peptide' / 'nucleic' / None following the rule documented in
     biotite.structure.bonds (component type, compared in upper case)."""
-    c = describe()["chem_comp"].get(str(comp_id).upper())
+    c = _described()["chem_comp"].get(str(comp_id).upper())
     if c is None:
         return None
     if c["type"] in PEPTIDE_TYPES:
@@ -213,7 +230,9 @@ def link_class(comp_id):
 
 
 def content_digest():
-    return hashlib.sha256(json.dumps(describe(), sort_keys=True).encode()).hexdigest()
+    if "digest" not in _CACHE:
+        _CACHE["digest"] = hashlib.sha256(json.dumps(_described(), sort_keys=True).encode()).hexdigest()
+    return _CACHE["digest"]
 
 
 def tables():
